@@ -59,6 +59,12 @@ func genSendFaultsPlan(seed uint64, tier string) *Plan {
 				I: map[string]int{"msgs": 1 + g.intn(3), "size": g.pick2(0, 10, 300, 3000, 20000), "offset": g.intn(100000), "cell": n}})
 		}
 	}
+	// datagram client transports: a write fails (message too long for a datagram; the socket's buffer is full) - the
+	// send reports it, nothing was sent, and the messages after it go out as usual
+	for _, pat := range []string{"ok,ok,ok", "big,ok,ok", "ok,big,ok", "enobufs,ok,ok", "ok,enobufs,ok", "enobufs,enobufs,ok", "big,enobufs,ok", "ok,ok,big"} {
+		n++
+		p.Ops = append(p.Ops, Op{Kind: "udpsend", ID: fmt.Sprintf("us%d", n), S: map[string]string{"pattern": pat}, I: map[string]int{"size": g.pick2(0, 10, 300, 3000, 20000), "cell": n}})
+	}
 	// end to end
 	for k := 0; k < 3; k++ {
 		n++
@@ -302,6 +308,72 @@ func execSendFaults(t *testing.T, p *Plan) *Result {
 				})
 				if dl != nil {
 					dl.CloseActor()
+				}
+			case "udpsend":
+				pats := strings.Split(op.S["pattern"], ",")
+				var msgs []*Message
+				var ids []string
+				for k, pat := range pats {
+					size := op.I["size"]
+					if pat == "big" {
+						size = 66000 // more than a datagram can carry: the write fails with EMSGSIZE
+					}
+					id := fmt.Sprintf("%sm%d", op.ID, k)
+					m, _ := sfMessage(id, size)
+					msgs = append(msgs, m)
+					ids = append(ids, id)
+				}
+				var errs []bool
+				done := false
+				w.K.Spawn("sender-"+op.ID, true, func() {
+					mgr := NewClientTransportMgr(sfReader)
+					for k := range msgs {
+						// the transport is looked up for every message, as the proxy does
+						trans, err := mgr.GetTransport("udp", dstIP, 5060, "10.0.0.1", "")
+						if err != nil {
+							errs = append(errs, true)
+							continue
+						}
+						if pats[k] == "enobufs" {
+							n.F.UDPWriteErrPct = 100
+						}
+						err = trans.Send(msgs[k])
+						n.F.UDPWriteErrPct = 0
+						errs = append(errs, err != nil)
+					}
+					done = true
+				})
+				w.K.Settle(time.Second)
+				sig := "pattern=" + op.S["pattern"]
+				w.Stats["judged:C20"]++
+				w.stat("cell:udpsend")
+				if !done {
+					v("send-did-not-return", op.ID, sig, "Send on a datagram transport did not return in cell %s", sig)
+					continue
+				}
+				for k, id := range ids {
+					sent, failed := 0, 0
+					for _, e := range n.Emissions[emFrom:] {
+						if e.Proto != "udp" || e.Dst != dst || !bytes.Contains(e.Data, []byte("X-Sim-Id: "+id+"\r\n")) {
+							continue
+						}
+						if e.Err != "" {
+							failed++
+						} else {
+							sent++
+						}
+					}
+					ksig := fmt.Sprintf("%s;k=%d;kind=%s", sig, k, pats[k])
+					switch {
+					case sent > 1:
+						v("message-written-more-than-once", id, ksig, "datagram message %d of cell %s was sent %d times", k, sig, sent)
+					case !errs[k] && sent == 0:
+						v("success-reported-but-message-not-written", id, ksig, "Send reported success for datagram message %d of cell %s, but no datagram carrying it was sent (%d failed write(s))", k, sig, failed)
+					case pats[k] == "ok" && (errs[k] || sent != 1):
+						v("healthy-send-failed", id, ksig, "datagram message %d of cell %s (nothing wrong with this one; earlier writes of the cell failed: %v) was sent %d times, Send returned error=%v", k, sig, errs[:k], sent, errs[k])
+					case errs[k] && sent == 1:
+						v("error-reported-but-message-written", id, ksig, "Send returned an error for datagram message %d of cell %s although the datagram was sent", k, sig)
+					}
 				}
 			case "tcpbackend":
 				res := &sfResult{}
